@@ -7,8 +7,10 @@ import (
 	"encoding/json"
 	"errors"
 	"fmt"
+	"os"
 	"reflect"
 	"strings"
+	"sync/atomic"
 
 	"ariga.io/atlas/sql/migrate"
 	"verifharness/lib/world"
@@ -113,9 +115,9 @@ func one(cs Case) (why, key string, trace []string) {
 		w.FailExec = cs.K - cs.K0 + 1
 	}
 	if cs.Crash {
-		// writes so far: 3 per complete single-statement file, then 1 (started) + K (per statement);
-		// the next one is the deferred write that would record the error: lose it.
-		w.FailWrite = 3*cs.Extra + 1 + cs.K + 1
+		// lose the write(s) that would record the failing statement's error (whatever the executor's
+		// write schedule is)
+		w.FailWriteIf = func(r *migrate.Revision) bool { return r.Error != "" }
 	}
 	ex, err := migrate.NewExecutor(w, dir, w)
 	if err != nil {
@@ -152,7 +154,7 @@ func one(cs Case) (why, key string, trace []string) {
 		others = append(others, world.SemRev(w.Revs[fmt.Sprint(f+1)]))
 	}
 	write(dir, cs, cs.Out)
-	w.ExecN, w.WriteN, w.FailExec, w.FailWrite = 0, 0, 0, 0
+	w.ExecN, w.WriteN, w.FailExec, w.FailWrite, w.FailWriteIf = 0, 0, 0, 0, nil
 	start := len(w.Log)
 	var rerr error
 	defer func() { trace = world.EvStrings(w.Log[start:]) }()
@@ -338,6 +340,7 @@ func run(c *rt.Ctx) {
 			cases = append(cases, Case{N: 4, K: k, Text: t, Edit: fmt.Sprintf("text:change@%d", k-1), Out: ch, Style: "nl"})
 		}
 	}
+	var setupFail int64
 	c.Par(len(cases), func(i int, w *rt.W) {
 		cs := cases[i]
 		w.Begin(cs)
@@ -371,6 +374,13 @@ func run(c *rt.Ctx) {
 		if cs.Crash {
 			c.Count("setup:crash-state(no error text)", 1)
 		}
+		if why != "" && key == "setup" {
+			// the partial state could not be produced as planned: no observation about C12 (how
+			// partial progress is recorded is C09's matter)
+			c.Inconclusive("setup-state-not-reached")
+			atomic.AddInt64(&setupFail, 1)
+			return
+		}
 		if why != "" {
 			c.Violation(key, why, cs, map[string]any{"events": tr})
 			return
@@ -379,5 +389,11 @@ func run(c *rt.Ctx) {
 			c.Sample(map[string]any{"case": cs, "class": cls, "events": tr, "verdict": "held"})
 		}
 	})
+	defer func() {
+		if setupFail*5 > int64(len(cases)) {
+			fmt.Fprintf(os.Stderr, "run validity guard: the partial state could not be set up in %d of %d cases\n", setupFail, len(cases))
+			os.Exit(4)
+		}
+	}()
 	c.Finish("every file of n statements × every partial progress k (produced by a real failing run) × every edit (change/delete/swap/dup/insert at every index, truncate to every length, append); prefix unchanged ⇒ execs == new tail and final revision complete; prefix changed ⇒ HistoryChangedError, zero execs, revision equal on all non-timestamp fields; never a panic. distinct = distinct (case, event trace), non-trivial = an actual edit", map[string]any{"exhaustive": true, "max_n": maxN})
 }
